@@ -173,6 +173,68 @@ def enc_hrp(E, R, hrp, witver, n):
     return "ok"
 
 
+def decode_twice(E, R, witver, n, testnet):
+    """the same address decoded twice, the caller modifying the first result in place in between (e.g. to build a
+    scriptPubKey): the second answer is again the address's own version and program"""
+    hrp = "tb" if testnet else "bc"
+    prog = E.bytes("prog", n)
+    s = E.run(R.bech32.encode, hrp, witver, prog)
+    if isinstance(s, Raised) or s is None:
+        E.fail("legal (version, length) encodes")
+        return "none"
+    d1 = E.run(R.bech32.decode, hrp, s)
+    if isinstance(d1, Raised) or d1[1] is None:
+        E.fail("decode(encode(x)) works")
+        return "rejected"
+    E.check_eq([d1[0], list(d1[1])], [witver, list(prog)], "first decode returns version and program")
+    if isinstance(d1[1], list):
+        d1[1].insert(0, n)                 # caller-side mutation of what was returned
+        d1[1].insert(0, 0x50 + witver if witver else 0)
+        d1[1].append(0xAC)
+    d2 = E.run(R.bech32.decode, hrp, s)
+    if isinstance(d2, Raised) or d2[1] is None:
+        E.fail("an address decodes again after its first result was modified by the caller")
+        return "rejected2"
+    E.check_eq([d2[0], list(d2[1])], [witver, list(prog)],
+               "an address decodes to its own version and program again after the caller modified the first result")
+    if witver == 0:
+        back = E.run(R.helper.bech32_decode_address, s)
+        if isinstance(back, list):
+            back.append(1)
+        back = E.run(R.helper.bech32_decode_address, s)
+        E.check_eq(back if isinstance(back, Raised) else bytes_or_list(back), list(prog),
+                   "bech32_decode_address returns the program again after earlier results were modified")
+    return "ok"
+
+
+def bytes_or_list(x):
+    return list(x)
+
+
+def foreign_char(E, R, hrp, m, pos, upper):
+    """a string that is a well-formed address except for ONE character outside printable US-ASCII (any code point
+    up to U+10FFFF, in the prefix or in the data part) is rejected -- whatever the checksum: BIP173 admits only 33..126.
+    The data part is symbolic, so strings whose foreign character case-maps onto a charset character (U+212A KELVIN SIGN
+    -> k, U+0130, U+0131, U+017F) with a then-valid checksum are included."""
+    cs = CHARSET.upper() if upper else CHARSET
+    data = E.chars("d", m, cs, mode="bv")
+    x = E.chars("x", 1, None, mode="bv", lo=0, hi=0x10ffff)
+    cp = x[0].code() if E.symbolic else ord(x)
+    E.assume(((cp < 33) | (cp > 126)) if E.symbolic else (cp < 33 or cp > 126))
+    E.assume(((cp < 0xD800) | (cp > 0xDFFF)) if E.symbolic else not (0xD800 <= cp <= 0xDFFF))
+    h = hrp.upper() if upper else hrp
+    if pos < 0:                                  # inside the human-readable part
+        s = h[:1] + x + h[1:] + "1" + data
+    else:
+        s = h + "1" + data[:pos] + x + data[pos:]
+    got3 = E.run(R.bech32.bech32_decode, s)
+    E.check_eq(got3, (None, None, None), "a string with a character outside 33..126 is rejected by bech32_decode")
+    for want in (hrp, h):
+        got = E.run(R.bech32.decode, want, s)
+        E.check_eq(got, (None, None), "a string with a character outside 33..126 is rejected by decode")
+    return "ok"
+
+
 def helper_addr(E, R, kind, testnet):
     """helper wrappers choose hrp by network and witness version 0"""
     n = 20 if kind == "p2wpkh" else 32
@@ -599,6 +661,14 @@ def cases(tier):
         for t in (False, True):
             cs.append(Case("helper[%s,%s]" % (kind, t), "helper_addr", dict(kind=kind, testnet=t),
                            need=("helper: version 0 and the hash as program",)))
+    for (wv, n, t) in ((0, 20, False), (0, 32, True), (1, 32, False), (16, 2, True)):
+        cs.append(Case("decode_twice[v%d,%d]" % (wv, n), "decode_twice", dict(witver=wv, n=n, testnet=t),
+                       need=("an address decodes to its own version and program again after the caller modified the first result",)))
+    for upper in (False, True):
+        for (m, pos) in ((38, -1), (38, 0), (38, 20), (38, 37), (58, 31)) if q else [(m, p) for m in (38, 58) for p in (-1, 0, 1, 10, 20, 30, 36, 37)]:
+            cs.append(Case("foreign[%s,m%d,pos%d]" % ("upper" if upper else "lower", m, pos), "foreign_char",
+                           dict(hrp="bc", m=m, pos=pos, upper=upper), max_paths=2000,
+                           need=("a string with a character outside 33..126 is rejected by bech32_decode",)))
     # (b)
     for hl in (1, 2, 3):
         for m in ((11, 12, 14) if q else range(6, 21)):
